@@ -24,7 +24,7 @@ ASSUMPTIONS = [
     'say whose block counts); what is judged is that every flag is restored once all blocks have exited',
     're-assigning the identical object may raise or not; only "the held object did not change" is required',
 ]
-REQUIRED = {'async_deliveries_checked': 15, 'rebinds_attempted_by_watcher_during_delivery': 6, 'class_relock_cases': 12, 'relock_failures_injected': 15, 'pending_references_offered_to_constants': 20, 'linked_constant_failed_deliveries': 20, 'forbidden_attempts': 3000, 'blocks': 500, 'blocks_raised': 100, 'flag_probes': 2000, 'ctor_constant_reference': 50,
+REQUIRED = {'copies_taken_inside_blocks': 12, 'async_deliveries_checked': 15, 'rebinds_attempted_by_watcher_during_delivery': 6, 'class_relock_cases': 12, 'relock_failures_injected': 15, 'pending_references_offered_to_constants': 20, 'linked_constant_failed_deliveries': 20, 'forbidden_attempts': 3000, 'blocks': 500, 'blocks_raised': 100, 'flag_probes': 2000, 'ctor_constant_reference': 50,
             'ctor_constant_pending_reference': 50, 'library_attempts': 100, 'async_attempts': 100, 'observer_calls': 100, 'class_blocks': 50}
 
 _st = {}
@@ -450,8 +450,57 @@ def class_relock_case(idx, rng, P, rep):
     rep.case(('class-relock', failing, tuple(l for l, _ in made)), True)
 
 
+def copy_inside_block_case(idx, rng, P, rep):
+    """A deep copy or pickle of an object taken while edit_constant has it unlocked is another object, on which no block
+    was opened: its constants refuse assignment inside the block and for ever after."""
+    import copy
+    import pickle
+    param = _st['param']
+    K = type(f'CB{idx}', (param.Parameterized,), dict(c=param.Parameter(default=Tok(), constant=True), d=param.Parameter(default=Tok(), constant=True),
+                                                      plain=param.Parameter(default=None)))
+    K.__module__ = __name__
+    globals()[K.__name__] = K          # (so that pickle finds the class)
+    o = K()
+    on_class = rng.random() < 0.3
+    how = rng.choice(['deepcopy', 'pickle'])
+    desc = dict(kind='copy-inside-block', block_on='class' if on_class else 'instance', mechanism=how)
+    copies = []
+
+    def attempt(obj, label, where):
+        for n in ('c', 'd', 'name'):
+            rep.count('forbidden_attempts')
+            rep.count('flag_probes')
+            try:
+                setattr(obj, n, 'x' if n == 'name' else Tok())
+            except TypeError:
+                continue
+            rep.violation('C14/rebind-allowed-outside-block/copy-taken-inside-block', f'{label} ({how}, block on the {desc["block_on"]}): '
+                          f'assignment to {n} accepted {where}', case=desc)
+            return
+    try:
+        with param.parameterized.edit_constant(K if on_class else o):
+            if rng.random() < 0.5:
+                o.c = Tok()
+            src = o if not on_class or rng.random() < 0.5 else K()
+            cp = copy.deepcopy(src) if how == 'deepcopy' else pickle.loads(pickle.dumps(src))
+            copies.append(cp)
+            rep.count('copies_taken_inside_blocks')
+            if not on_class:
+                # (a block on the class lifts the lock for its instances too - also for one that appears meanwhile)
+                attempt(cp, 'the copy', 'inside the block, which was opened on the original')
+    finally:
+        globals().pop(K.__name__, None)
+    rep.count('blocks')
+    for cp in copies:
+        attempt(cp, 'the copy', 'after the block')
+    attempt(o, 'the original', 'after the block')
+    rep.case(('copy-inside-block', on_class, how), True)
+
+
 def run_case(idx, rng, P, rep):
     param = _st['param']
+    if rng.random() < 0.03:
+        return copy_inside_block_case(idx, rng, P, rep)
     if rng.random() < 0.06:
         return library_case(idx, rng, P, rep)
     if rng.random() < 0.03:
